@@ -12,6 +12,11 @@ def register(prop, J):
                extra_pkgs=["dyn", "gendrv"], timeout=(900, 3000)),
              J("conf-v1", "v1", "codecprops", "^TestC03", checks=(6000, 1600000), shards=(4, 16), prepare="prepare_codec",
                extra_pkgs=["dyn", "gendrv"], timeout=(900, 3000)),
+             # native coverage-guided fuzzing (thorough tier only): bytes the reference reads as a valid value must be accepted
+             J("fuzz-v2", "v2", "codecprops", "^TestC03Accept$", tiers=("thorough",), shards=(1, 1), prepare="prepare_codec",
+               extra_pkgs=["dyn", "gendrv"], timeout=(900, 1200), opts={"fuzz": "FuzzC03Accept", "fuzztime": (0, 240)}),
+             J("fuzz-v1", "v1", "codecprops", "^TestC03Accept$", tiers=("thorough",), shards=(1, 1), prepare="prepare_codec",
+               extra_pkgs=["dyn", "gendrv"], timeout=(900, 1200), opts={"fuzz": "FuzzC03Accept", "fuzztime": (0, 120)}),
          ],
          level_text="differential testing in both directions against a reference encoder/decoder pair written from the protocol rules "
                     "(strict JSON on encoding/json's tokenizer with duplicate-key / trailing-data / UTF-8 checks, hand-written ROR2 "
